@@ -162,23 +162,39 @@ def template_names() -> list[str]:
     return [str(p.relative_to(d)) for p in sorted(d.rglob("*.jinja2"))]
 
 
-def read_keys(rel: str, _seen: frozenset = frozenset()) -> list[str]:
-    """context variables a template (and what it includes) reads, by jinja2's own analysis"""
-    from jinja2 import meta
+_ENVS: dict = {}
 
+
+def _env(directory: Path):
     from ..translate import template_ast
 
+    key = str(directory)
+    if key not in _ENVS:
+        _ENVS[key] = template_ast.environment_for(directory)
+    return _ENVS[key]
+
+
+def template_reads(rel: str, _seen: frozenset = frozenset()) -> tuple[list[str], list[str]]:
+    """(context variables, attribute names) a template and what it includes read, by jinja2's own analysis"""
+    from jinja2 import meta, nodes
+
     path = template_dir() / rel
-    env = template_ast.environment_for(path.parent)
-    tree = env.parse(path.read_text())
+    tree = _env(path.parent).parse(path.read_text())
     keys = set(meta.find_undeclared_variables(tree))
+    attrs = {n.attr for n in tree.find_all(nodes.Getattr)}
     for inc in meta.find_referenced_templates(tree):
         if inc is None:
             continue
         sub = str((path.parent / inc).resolve().relative_to(template_dir().resolve()))
         if sub not in _seen and (template_dir() / sub).exists():
-            keys |= set(read_keys(sub, _seen | {rel}))
-    return sorted(keys)
+            k2, a2 = template_reads(sub, _seen | {rel})
+            keys |= set(k2)
+            attrs |= set(a2)
+    return sorted(keys), sorted(attrs)
+
+
+def read_keys(rel: str) -> list[str]:
+    return template_reads(rel)[0]
 
 
 def render_real(rel: str, ctx: dict) -> str:
@@ -203,7 +219,7 @@ def render_real(rel: str, ctx: dict) -> str:
 # ------------------------------------------------------------------ generators
 LINEBREAKS = ["\n", "\r", "\r\n", "\x0b", "\x0c", "\x1c", "\x1d", "\x1e", "\x85", "\u2028", "\u2029"]
 NASTY = ['"', '""', '"""', '""""', "'''", "'", "\\", "\\\\", "\\n", "\\x00", "\x00", " ", "    ", "\t", "a", "b c", "\u00e9",
-         "{{ x }}", "{% if y %}", "#", "\x1f", "\x7f", "\xa0"]
+         "{{ x }}", "{% if y %}", "#", "\x1f", "\x7f", "\xa0", "\x00a\x00", "\\x00\x00"]
 NAMES = ["x", "foo", "bar_baz", "field_1", "Name", "class_", "a", "id", "model_config", "RED", "__root__"]
 CLASS_NAMES = ["Model", "Pet", "E", "Foo_Bar", "A1", "FieldModel"]
 TYPE_HINTS = ["str", "int", "Optional[str]", "List[int]", "Union[int, str]", "Literal['a', \"b\"]", "Dict[str, Any]", "'Foo'",
@@ -302,7 +318,7 @@ def gen_field(rng: Rng) -> Rec:
 
 
 def gen_fields(rng: Rng) -> list:
-    return [gen_field(rng) for _ in range(weighted(rng, [(3, 0), (4, 1), (3, 2), (2, 3), (1, 4)]))]
+    return [gen_field(rng) for _ in range(weighted(rng, [(2, 0), (4, 1), (3, 2), (2, 3), (1, 4)]))]
 
 
 def gen_entries(rng: Rng) -> dict:
@@ -339,8 +355,10 @@ def gen_config(rng: Rng) -> Any:
     return weighted(rng, [(5, ABSENT), (2, None), (1, ""), (5, "cfg"), (3, "pyd")])
 
 
-def gen_context(rng: Rng, keys: list[str]) -> tuple[dict, dict]:
-    """(context, tags for the distribution)"""
+def gen_context(rng: Rng, keys: list[str], rel: str = "") -> tuple[dict, dict]:
+    """(context, tags for the distribution); `rel` only biases the choice (a template that is nothing but
+    the config block gets a config most of the time)"""
+    config_only = Path(rel).name in ("Config.jinja2", "ConfigDict.jinja2")
     ctx: dict[str, Any] = {}
     tags: dict[str, str] = {}
 
@@ -361,7 +379,7 @@ def gen_context(rng: Rng, keys: list[str]) -> tuple[dict, dict]:
             tags["desc"], v = gen_doc(rng)
             put(k, v)
         elif k in ("fields", "all_fields"):
-            v = weighted(rng, [(1, ABSENT), (30, gen_fields(rng))])
+            v = weighted(rng, [(1, ABSENT), (15, gen_fields(rng))])
             if k == "fields":
                 tags["fields"] = "absent" if v is ABSENT else str(len(v))
             put(k, v)
@@ -371,6 +389,8 @@ def gen_context(rng: Rng, keys: list[str]) -> tuple[dict, dict]:
             put(k, weighted(rng, [(4, ABSENT), (8, [rng.choice(METHODS) for _ in range(weighted(rng, [(5, 0), (3, 1), (2, 2)]))])]))
         elif k == "config":
             c = gen_config(rng)
+            if config_only and rng.chance(5, 6):
+                c = rng.choice(["cfg", "cfg", "pyd"])
             tags["config"] = "absent" if c is ABSENT else "none" if c is None else "empty-str" if c == "" else c
             if c == "cfg":
                 c = Cfg(gen_entries(rng))
@@ -382,7 +402,7 @@ def gen_context(rng: Rng, keys: list[str]) -> tuple[dict, dict]:
         elif k == "comment":
             put(k, opt(rng, text_or_nasty(rng, ["noqa", "type: ignore", "a comment"]), [""], (8, 1, 1, 5)))
         elif k == "base_class_kwargs":
-            put(k, weighted(rng, [(5, ABSENT), (2, {}), (6, gen_entries(rng))]))
+            put(k, weighted(rng, [(5, ABSENT), (1, None), (2, {}), (6, gen_entries(rng))]))
         elif k == "py_type":
             put(k, opt(rng, text_or_nasty(rng, TYPE_HINTS), [""], (1, 1, 1, 14)))
         else:  # a variable the templates started to read after this generator was written
@@ -394,7 +414,7 @@ def gen_context(rng: Rng, keys: list[str]) -> tuple[dict, dict]:
 def wrong_value(rng: Rng, position: str) -> Any:
     """`position`: 'top' (iterated / measured / searched / `.items()`), 'config' (`.dict()` is called),
     'item' (a field), 'attr' (an attribute of a field)"""
-    pool: list[Any] = [0, 7, -3, None, True, False, "", "zz", "a\nb", [], [1], ["a", "b"], [[]], [None]]
+    pool: list[Any] = [0, 7, -3, 42, -1, None, True, False, "", "zz", "a\nb", [], [1], ["a", "b"], [[]], [None]]
     if position != "config":
         pool += [{}, {"a": 1}, {"name": "n", "type_hint": "t"}]
     if position in ("item", "attr"):
@@ -402,8 +422,12 @@ def wrong_value(rng: Rng, position: str) -> Any:
     return rng.choice(pool)
 
 
-def mutate(rng: Rng, ctx: dict, keys: list[str]) -> str:
-    """one mutation in place; returns its label"""
+FIELD_ATTRS = ["name", "type_hint", "annotated", "default", "represented_default", "required", "field", "docstring", "key",
+               "strip_default_none", "nullable", "data_type"]
+
+
+def mutate(rng: Rng, ctx: dict, keys: list[str], attrs: list[str] | None = None) -> str:
+    """one mutation in place; returns its label.  `attrs`: the attribute names the template reads"""
     kind = weighted(rng, [(5, "top"), (3, "item"), (4, "attr"), (1, "drop")])
     fkeys = [k for k in ("fields", "all_fields") if isinstance(ctx.get(k), list) and ctx[k]]
     if kind in ("item", "attr") and not fkeys:
@@ -427,8 +451,8 @@ def mutate(rng: Rng, ctx: dict, keys: list[str]) -> str:
         ctx[fk] = items
         return "item"
     attrs = dict(items[i].__dict__)
-    a = rng.choice(["name", "type_hint", "annotated", "default", "represented_default", "required", "field", "docstring", "key",
-                    "strip_default_none", "nullable", "data_type"])
+    read = [a for a in (attrs or []) if a in FIELD_ATTRS]
+    a = rng.choice(read) if read and rng.chance(4, 5) else rng.choice(FIELD_ATTRS)
     attrs[a] = wrong_value(rng, "attr")
     items[i] = Rec(**attrs)
     ctx[fk] = items
@@ -449,6 +473,32 @@ CORPUS: list[dict] = [
      "context": {"class_name": "M", "base_class": "A, B", "fields": [], "decorators": [], "config": {"$pydantic": ["ConfigDict", {}]}}},
     {"template": "pydantic_v2/RootModel.jinja2",
      "context": {"class_name": "M", "base_class": "RootModel", "fields": [], "config": {"$config": {}}}},
+    # `x.a` on None / str / int is Undefined (Environment.getattr), it was unmodelled
+    {"template": "pydantic_v2/BaseModel.jinja2",
+     "context": {"class_name": "M", "base_class": "BaseModel", "decorators": [],
+                 "fields": [_f(name="a", type_hint="int", required=True, represented_default="None", data_type=None)]}},
+    {"template": "Enum.jinja2", "context": {"class_name": "E", "base_class": "Enum", "decorators": [], "fields": ["ab", 7, None, [1]]}},
+    {"template": "TypedDictClass.jinja2", "context": {"class_name": "T", "base_class": "TypedDict", "fields": "ab"}},
+    # `x[0]` on a str is its first character, on None / int / bool / a str-keyed dict it is Undefined (Environment.getitem)
+    {"template": "root.jinja2", "context": {"class_name": "R", "fields": "ab"}},
+    {"template": "root.jinja2", "context": {"class_name": "R", "fields": None}},
+    {"template": "Union.jinja2", "context": {"class_name": "U", "fields": 7}},
+    {"template": "Union.jinja2", "context": {"class_name": "U", "fields": {"$dict": {"a": 1}}}},
+    {"template": "pydantic_v2/RootModel.jinja2", "context": {"class_name": "M", "base_class": "RootModel", "fields": True, "description": "d"}},
+    # Undefined in `in` / `!=`
+    {"template": "pydantic_v2/BaseModel.jinja2", "context": {"class_name": "M"}},
+    # two NULs on one comment line (replace is global), every line-break character of str.splitlines
+    {"template": "Union.jinja2",
+     "context": {"class_name": "U", "fields": [_f(name="A"), _f(name="B")],
+                 "description": "\x00a\x00\x0bb\x0cc\x1cd\x1de\x1ef\x85g\u2028h\u2029i\rj\r\nk\n\n l \n"}},
+    {"template": "TypedDictFunction.jinja2",
+     "context": {"class_name": "T", "description": "a\r\n\"\"\"\\\n\n  \nb\n",
+                 "all_fields": [_f(key="it's", type_hint="int", docstring="\x00\x00\u2028\r"), _f(key="k", type_hint=None, docstring=0)]}},
+    {"template": "TypedDictFunction.jinja2", "context": {"class_name": "T", "all_fields": [_f(key="k", type_hint="int", docstring=7)]}},
+    # base_class_kwargs = None is not replaced by default({})
+    {"template": "msgspec.jinja2", "context": {"class_name": "S", "base_class": "Struct", "base_class_kwargs": None, "fields": [], "decorators": []}},
+    {"template": "msgspec.jinja2", "context": {"class_name": "S", "base_class": "Struct", "fields": [], "decorators": [],
+                                               "base_class_kwargs": {"$dict": {"kw_only": True, "tag": "'x'", "n": -3, "z": None}}}},
 ]
 
 
@@ -471,15 +521,15 @@ def campaign_templates(ck: Check, n: int) -> None:
     for c in CORPUS:
         cases.append(("corpus", c["template"], ctx_from_json(c["context"]), {}))
     for rel in names:
-        keys = read_keys(rel)
+        keys, attrs = template_reads(rel)
         r = rng.fork(rel)
         for _ in range(n):
-            ctx, tags = gen_context(r, keys)
+            ctx, tags = gen_context(r, keys, rel)
             stream = "valid"
             if r.chance(15, 100):
                 stream = "malformed"
                 for _ in range(weighted(r, [(6, 1), (3, 2), (1, 3)])):
-                    tags["mutation"] = mutate(r, ctx, keys).split(":")[0]
+                    tags["mutation"] = mutate(r, ctx, keys, attrs).split(":")[0]
             cases.append((stream, rel, ctx, tags))
     reqs = [f"tpl.render {hx(rel)} {enc_dict(ctx)}" for _, rel, ctx, _ in cases]
     replies = ck.driver.run(reqs + ["tpl.unsupported", "tpl.names"])
@@ -512,7 +562,9 @@ def campaign_templates(ck: Check, n: int) -> None:
             model = "ok " + unhx(rep.split(" ")[1])
         else:
             model = rep  # err undefined | err type | unsupported | err no-such-template | err args
-        camp.hit("result:" + (impl.split(" ")[1] if impl.startswith("err ") else impl.split(" ")[0].rstrip(":")))
+        kind = impl.split(" ")[1] if impl.startswith("err ") else impl.split(" ")[0].rstrip(":")
+        camp.hit("result:" + kind)
+        camp.hit(f"tpl:{rel}:{kind}")
         if model != impl:
             ck.disagree(camp, {"template": rel, "context": jctx, "stream": stream}, model, impl)
             continue
@@ -520,7 +572,7 @@ def campaign_templates(ck: Check, n: int) -> None:
             camp.distinct.add((rel, json.dumps(jctx, sort_keys=True, ensure_ascii=True)))
             if len(camp.samples) < 3 and stream == "valid" and (len(camp.samples) == 0 or camp.evaluations % 97 == 0):
                 camp.samples.append({"template": rel, "context": jctx, "text": impl[3:]})
-    camp.hit("valid-stream-unmodelled-permille:" + str(round(1000 * valid_unmodelled / max(1, valid_total))), 1)
+    camp.hit("unmodelled-on-valid-stream", valid_unmodelled)  # to be kept under 2 % of stream:valid
     camp.wall_s = time.time() - t0
 
 
